@@ -487,3 +487,179 @@ Proof.
   - destruct long; reflexivity.
   - destruct last as [[o [s|s|]]|]; reflexivity.
 Qed.
+
+(* ---------- Args.set_option over the scratch map gives the typed assignment ---------- *)
+(* the value Args.set_option stores for the raw value v of option o *)
+Definition conv_raw (o : opt) (v : rawopt) : res pyval :=
+  if o_multi o then
+    match v with
+    | OList l => do vs <- parse_each (o_type o) (o_nullable o) l; Ok (VList vs)
+    | _ => do x <- parse_raw_opt (o_type o) (o_nullable o) v; Ok (VList [x])
+    end
+  else if o_accepts o then parse_raw_opt (o_type o) (o_nullable o) v
+  else Ok (VBool true).
+Lemma set_option_conv f a n v o : get_option f n true = Ok o ->
+  set_option f a n v = do pv <- conv_raw o v; Ok {| ar_opts := sset (o_long o) pv (ar_opts a); ar_args := ar_args a |}.
+Proof. intros H. unfold set_option, conv_raw. rewrite H. reflexivity. Qed.
+
+Definition rel1 (f : fmt) (r : str * rawopt) (t : str * pyval) : Prop :=
+  fst r = fst t /\ exists o, known f o /\ o_long o = fst r /\ conv_raw o (snd r) = Ok (snd t) /\
+                             (o_multi o = true -> exists l, snd r = OList l).
+Definition rel (f : fmt) := Forall2 (rel1 f).
+
+Lemma set_options_rel f R T : rel f R T -> NoDup (map fst R) ->
+  forall a, (forall k, In k (map fst R) -> ~ In k (map fst (ar_opts a))) ->
+  set_options f a R = Ok {| ar_opts := ar_opts a ++ T; ar_args := ar_args a |}.
+Proof.
+  induction 1 as [|[k r] [k' t] R' T' H1 HF IH]; intros Hnd a Hfresh; cbn [set_options].
+  - rewrite app_nil_r. destruct a; reflexivity.
+  - destruct H1 as (Hkk & o & [Hg Hh] & Hl & Hc & _). cbn [fst snd] in *. subst k'. subst k.
+    rewrite Hh, (set_option_conv f a _ r o Hg), Hc. cbn [bind].
+    inversion Hnd as [|? ? Hk Hnd']; subst.
+    unfold sset. rewrite sset_absent by (apply notin_sget_none; apply Hfresh; now left).
+    rewrite IH; [cbn [ar_opts ar_args]; now rewrite <- app_assoc|exact Hnd'|].
+    cbn [ar_opts]. intros k Hin. rewrite map_app, in_app_iff. cbn. intros [Hi|[<-|[]]].
+    + eapply Hfresh; [right; exact Hin|exact Hi].
+    + contradiction.
+Qed.
+
+Lemma Forall2_sset {A B} (P : str * A -> str * B -> Prop) k rv tv :
+  (forall r t, P r t -> fst r = fst t) -> P (k, rv) (k, tv) ->
+  forall R T, Forall2 P R T -> Forall2 P (sset k rv R) (sset k tv T).
+Proof.
+  intros Hkey Hp. induction 1 as [|[k1 r1] [k2 t1] R' T' H1 HF IH]; cbn.
+  - constructor; [exact Hp|constructor].
+  - pose proof (Hkey _ _ H1) as E. cbn in E. subst k2.
+    destruct (str_eqb_spec k k1) as [->|Hn]; constructor; assumption.
+Qed.
+Lemma Forall2_sget {A B} (P : str * A -> str * B -> Prop) k :
+  (forall r t, P r t -> fst r = fst t) ->
+  forall R T, Forall2 P R T ->
+  match sget k R with
+  | Some rv => exists tv, sget k T = Some tv /\ P (k, rv) (k, tv)
+  | None => sget k T = None
+  end.
+Proof.
+  intros Hkey. induction 1 as [|[k1 r1] [k2 t1] R' T' H1 HF IH]; cbn; [reflexivity|].
+  pose proof (Hkey _ _ H1) as E. cbn in E. subst k2.
+  destruct (str_eqb_spec k k1) as [->|Hn]; [eauto|exact IH].
+Qed.
+Lemma sset_keys_nodup {A} k (v : A) d : NoDup (map fst d) -> NoDup (map fst (sset k v d)).
+Proof.
+  intros H. destruct (sget k d) as [w|] eqn:E.
+  - assert (map fst (sset k v d) = map fst d) as ->; [|exact H]. clear H.
+    induction d as [|[k1 v1] r IH]; cbn in *; [discriminate|].
+    destruct (str_eqb_spec k k1) as [->|Hn]; cbn; [reflexivity|]. f_equal. apply IH. exact E.
+  - unfold sset. rewrite sset_absent by exact E. rewrite map_app. cbn.
+    apply NoDup_app_snoc; [exact H|now apply sget_none_notin].
+Qed.
+
+Lemma parse_each_app t nl l1 l2 v1 v2 :
+  parse_each t nl l1 = Ok v1 -> parse_each t nl l2 = Ok v2 -> parse_each t nl (l1 ++ l2) = Ok (v1 ++ v2).
+Proof.
+  revert v1. induction l1 as [|s r IH]; intros v1; cbn [parse_each app].
+  - intros H. inversion H; subst. auto.
+  - destruct (parse_typed t nl (VStr s)) as [x|]; cbn [bind]; [|discriminate].
+    destruct (parse_each t nl r) as [vs|]; cbn [bind]; [|discriminate].
+    intros H H2. inversion H; subst. rewrite (IH vs eq_refl H2). reflexivity.
+Qed.
+
+(* what an event must satisfy for the conversion *)
+Definition ev_ok (f : fmt) (e : opt * given) : Prop :=
+  known f (fst e) /\
+  match snd e with
+  | GTrue => is_flag (fst e) = true
+  | GDefault => is_bare (fst e) = true
+  | GText s => text_ok (fst e) s = true
+  end.
+
+Lemma res_ok_inv {X} (r : res X) : res_ok r = true -> exists x, r = Ok x.
+Proof. destruct r; [eauto|discriminate]. Qed.
+
+Lemma rel_event f R T e : rel f R T -> ev_ok f e -> rel f (raw_event R e) (denote_event T e).
+Proof.
+  intros HR [Hk He]. destruct e as [o gv]. cbn [fst snd] in *.
+  assert (forall r t, rel1 f r t -> fst r = fst t) as Hkey by (intros r t [E _]; exact E).
+  unfold raw_event, denote_event. cbn [fst snd].
+  destruct gv as [| |s].
+  - apply Forall2_sset; [exact Hkey| |exact HR]. split; [reflexivity|]. exists o. cbn [fst snd].
+    unfold is_flag in He. apply andb_prop in He as [He Hm]. apply andb_prop in He as [He _]. apply andb_prop in He as [Ha _].
+    apply negb_true_iff in Ha, Hm. split; [exact Hk|]. split; [reflexivity|]. split.
+    + unfold conv_raw. rewrite Hm, Ha. reflexivity.
+    + rewrite Hm. discriminate.
+  - apply Forall2_sset; [exact Hkey| |exact HR]. split; [reflexivity|]. exists o. cbn [fst snd].
+    unfold is_bare in He. apply andb_prop in He as [He Hc]. apply andb_prop in He as [He Hm]. apply andb_prop in He as [He _].
+    apply andb_prop in He as [Ha _]. apply negb_true_iff in Hm. apply res_ok_inv in Hc as [v Hv].
+    split; [exact Hk|]. split; [reflexivity|]. split.
+    + unfold conv_raw, conv_opt. rewrite Hm, Ha. cbn [parse_raw_opt]. rewrite Hv. reflexivity.
+    + rewrite Hm. discriminate.
+  - unfold text_ok in He. apply andb_prop in He as [Ha Hc]. apply res_ok_inv in Hc as [v Hv].
+    destruct (o_multi o) eqn:Hm.
+    + apply Forall2_sset; [exact Hkey| |exact HR]. split; [reflexivity|]. exists o. cbn [fst snd].
+      split; [exact Hk|]. split; [reflexivity|]. split; [|eauto].
+      pose proof (Forall2_sget (rel1 f) (o_long o) Hkey R T HR) as Hget.
+      unfold conv_raw, conv_opt. rewrite Hm, Hv. cbn [or_none].
+      destruct (sget (o_long o) R) as [rv|].
+      * destruct Hget as (tv & -> & _ & o' & [Hg' _] & Hl' & Hc' & Hml). cbn [fst snd] in *.
+        assert (o' = o) as -> by (destruct Hk as [Hg _]; rewrite Hl' in Hg'; congruence).
+        destruct (Hml Hm) as [l ->]. unfold conv_raw in Hc'. rewrite Hm in Hc'.
+        destruct (parse_each (o_type o) (o_nullable o) l) as [vs|] eqn:El; cbn [bind] in Hc'; [|discriminate].
+        inversion Hc'; subst.
+        rewrite (parse_each_app _ _ l [s] vs [v] El); [reflexivity|]. cbn [parse_each]. rewrite Hv. reflexivity.
+      * rewrite Hget. cbn [app parse_each]. rewrite Hv. reflexivity.
+    + apply Forall2_sset; [exact Hkey| |exact HR]. split; [reflexivity|]. exists o. cbn [fst snd].
+      split; [exact Hk|]. split; [reflexivity|]. split.
+      * unfold conv_raw, conv_opt. rewrite Hm, Ha. cbn [parse_raw_opt]. rewrite Hv. reflexivity.
+      * intros E. congruence.
+Qed.
+
+Lemma raw_event_nodup R e : NoDup (map fst R) -> NoDup (map fst (raw_event R e)).
+Proof.
+  intros H. unfold raw_event. destruct (snd e); [| |destruct (o_multi (fst e))]; apply sset_keys_nodup; exact H.
+Qed.
+
+Lemma rel_events f es : Forall (ev_ok f) es -> forall R T, rel f R T -> NoDup (map fst R) ->
+  rel f (fold_left raw_event es R) (fold_left denote_event es T) /\ NoDup (map fst (fold_left raw_event es R)).
+Proof.
+  induction 1 as [|e es He Hes IH]; intros R T HR Hnd; cbn [fold_left]; [split; assumption|].
+  apply IH; [apply rel_event; assumption|apply raw_event_nodup; exact Hnd].
+Qed.
+
+(* the conversion of the whole scratch map built from the events of a line *)
+Lemma set_options_events f es a : Forall (ev_ok f) es -> ar_opts a = [] ->
+  set_options f a (fold_left raw_event es []) = Ok {| ar_opts := fold_left denote_event es []; ar_args := ar_args a |}.
+Proof.
+  intros Hes Ha. destruct (rel_events f es Hes [] [] (Forall2_nil _) (NoDup_nil _)) as [HR Hnd].
+  rewrite (set_options_rel f _ _ HR Hnd a); [rewrite Ha; reflexivity|]. rewrite Ha. intros k _ [].
+Qed.
+
+(* the events of a well-formed item satisfy ev_ok *)
+Lemma item_events_ok f g it : item_ok f g it = true -> Forall (ev_ok f) (item_events it).
+Proof.
+  destruct it as [o long|o form s|o long|fl last|s]; cbn [item_ok item_events]; intros H.
+  - apply andb_prop in H as [H _]. apply andb_prop in H as [H1 H2]. apply opt_ok_inv in H1 as (Hk & _).
+    constructor; [split; assumption|constructor].
+  - apply andb_prop in H as [H _]. apply andb_prop in H as [H1 H2]. apply opt_ok_inv in H1 as (Hk & _).
+    constructor; [split; assumption|constructor].
+  - apply andb_prop in H as [H _]. apply andb_prop in H as [H1 H2]. apply opt_ok_inv in H1 as (Hk & _).
+    constructor; [split; assumption|constructor].
+  - apply andb_prop in H as [Hfl Hlast]. apply Forall_app. split.
+    + clear Hlast. induction fl as [|o fl IH]; cbn in *; [constructor|].
+      apply andb_prop in Hfl as [H Hr]. apply andb_prop in H as [H _]. apply andb_prop in H as [H1 H2].
+      apply opt_ok_inv in H1 as (Hk & _). constructor; [split; assumption|exact (IH Hr)].
+    + destruct last as [[o gl]|]; [|constructor]. apply andb_prop in Hlast as [_ Hlast]. unfold last_ok in Hlast.
+      cbn [fst snd] in Hlast. apply andb_prop in Hlast as [Hlast Hgl]. apply andb_prop in Hlast as [Hok _].
+      apply opt_ok_inv in Hok as (Hk & _). constructor; [|constructor]. unfold last_event. cbn [fst snd].
+      destruct gl as [s|s|]; (split; [exact Hk|]); cbn [fst snd]; [| |exact Hgl]; now apply andb_prop in Hgl as [_ Hgl].
+  - constructor.
+Qed.
+Lemma items_ok_each f g l : items_ok f g l = true -> Forall (fun it => item_ok f g it = true) l.
+Proof.
+  induction l as [|it r IH]; cbn [items_ok]; intros H; [constructor|].
+  apply andb_prop in H as [H Hr]. apply andb_prop in H as [H _]. constructor; [exact H|exact (IH Hr)].
+Qed.
+Lemma items_events_ok f g l : items_ok f g l = true -> Forall (ev_ok f) (flat_map item_events l).
+Proof.
+  intros H. apply items_ok_each in H. induction H as [|it r Hi Hr IH]; cbn [flat_map]; [constructor|].
+  apply Forall_app. split; [eapply item_events_ok; eauto|exact IH].
+Qed.
